@@ -9,7 +9,8 @@ RULE = ("case = (transport in {RTU/UDP, Modbus/TCP}, keep-alive, command kind, e
         "transmission that gets the exception answer, answer delay, timeout/retries); all codes x kinds x transports x "
         "keep-alive x {first, last} transmission are enumerated, delays/indices/configurations sampled by Hypothesis; "
         "plus exception frames with a corrupted CRC (must not be a rejection). Non-trivial = code != 4 (the only code the "
-        "test-suite touches) or the frame answers a retransmission; distinct by the whole tuple.")
+        "test-suite touches) or the frame answers a retransmission; distinct by the whole tuple. Further dimensions: "
+        "all 128 high-bit function codes (fcx), inconsistent MBAP headers, what earlier transmissions received, bare protocol vs. inverter object (api).")
 ASSUMPTIONS = [
     "reference reasons: codes 1-3 verbatim from the property, 4-8/10/11 from the Modbus application protocol after "
     "normalising SLAVE=SERVER and ACKNOWLEDGEMENT=ACKNOWLEDGE, every other code 'UNKNOWN'",
@@ -41,7 +42,7 @@ def check_case(acc: Acc, case):
     idx, d, code, kind = case["idx"], case["delay"], case["code"], case["kind"]
     corrupt = case.get("corrupt", False)
     if code != 4 or idx > 0 or corrupt or case.get("fcx") is not None:
-        acc.nontrivial(transport, case["keep"], T, R, idx, d, code, kind, corrupt, case.get("pre", "drop"), repr(case.get("mbap")), case.get("fcx"))
+        acc.nontrivial(transport, case["keep"], T, R, idx, d, code, kind, corrupt, case.get("pre", "drop"), repr(case.get("mbap")), case.get("fcx"), case.get("api", False))
     pre = case.get("pre", "drop")
     if pre.startswith("lone") and kind != "read":
         pre = "drop"
@@ -67,7 +68,7 @@ def check_case(acc: Acc, case):
         script = script + [["raw", d, bytes(frame)]]
     else:
         script = script + [["exc", d, code]]
-    c = {"transport": transport, "keep": case["keep"], "T": T, "R": R, "script": script, "latency": case.get("latency", 0)}
+    c = {"transport": transport, "keep": case["keep"], "T": T, "R": R, "script": script, "latency": case.get("latency", 0), "api": case.get("api", False)}
     obs = netcase.run_single(c, command=COMMANDS[kind])
     out = obs.outcome
     fails = []
@@ -112,6 +113,8 @@ def enum_job(job):
             for d in delays:
                 case = {"transport": transport, "keep": keep, "kind": kind, "T": T, "R": R, "idx": idx, "delay": d, "code": code}
                 _apply(acc, case)
+                if code < 16 or code % 16 == 0:
+                    _apply(acc, dict(case, api=True))   # through an inverter object
                 if code == 2 and idx and len(acc.samples) < 1:
                     acc.sample(case)
     for fcx in range(0x80, 0x100):   # every function code with the high bit set, also ones that do not mirror the request's
@@ -171,7 +174,7 @@ def hyp_job(job):
                 "T": draw(st.sampled_from((0.5, 1.0, 2.0, 4.0))), "R": R, "idx": draw(st.integers(0, R)),
                 "delay": draw(st.integers(0, 15)), "code": draw(st.integers(0, 255)), "latency": draw(st.integers(0, 3)),
                 "pre": draw(st.sampled_from(("drop", "drop", "lone-missing-7", "lone-missing-9", "lone-missing-5"))),
-                "fcx": draw(st.one_of(st.none(), st.none(), st.integers(0x80, 0xFF))),
+                "fcx": draw(st.one_of(st.none(), st.none(), st.integers(0x80, 0xFF))), "api": draw(st.booleans()),
                 "mbap": draw(st.one_of(st.none(), st.none(), st.tuples(st.integers(0, 0xFFFF), st.sampled_from((0, 0, 1, 0xFFFF))).map(list)))}
 
     def body(case):
